@@ -80,4 +80,20 @@ func msgUnpackCorr(c *Ctx, stream string, b []byte) {
 		arg = hx(b)
 	}
 	c.OpK(stream, "msg.unpack "+arg, got, len(b) > 12, "msg-unpack")
+	// and back: what Pack (no compression) makes of the decoded message against the model's plain packer
+	if len(b) >= 12 {
+		re := guard(func() string {
+			var m dns.Msg
+			if err := m.Unpack(b); err != nil {
+				return "err"
+			}
+			m.Compress = false
+			w, err := m.Pack()
+			if err != nil {
+				return "E"
+			}
+			return hx(w)
+		})
+		c.OpK(stream, "msg.repack "+arg, re, len(b) > 12, "msg-repack")
+	}
 }
